@@ -22,6 +22,15 @@ class ExpDomain:
     def variant_index(self, ex, name):
         return {"None": 0, "Some": 1, "Continue": 0, "Break": 1, "Ok": 0, "Err": 1}.get(name)
 
+    def select_inline_results(self, ex, rs):
+        # paths of a callee on which its input tested zero are outside the domain of the abstraction
+        keep = [r for r in rs if not r[1].env.get("__zero")]
+        return keep or rs
+
+    def refine(self, ex, fr, cond, truth):
+        if cond[1] == "iszero" and truth:
+            fr.env["__zero"] = True
+
     def val(self, ex, v):
         v = deref_value(ex, v)
         if isinstance(v, tuple) and v and v[0] == "E":
@@ -66,6 +75,9 @@ class ExpDomain:
                 return self.E(a * args[1]) if a is not None else TOP
             if n == "one" and not args:
                 return self.E(0)
+            if n == "is_zero" and len(args) == 1 and self.val(ex, args[0]) is not None:
+                # x = 0 is outside the domain of the exponent abstraction: returning None there is the specified behaviour
+                return ("cond", "iszero", None, False)
             if n in ("clone",) and len(args) == 1:
                 return deref_value(ex, args[0])
         if n in ("unwrap", "expect") and args:
@@ -132,9 +144,11 @@ def rule_exp(prop, repo):
             R.fail_closed("%s:exp:%s" % (prop, b.rec["path"]), str(e))
             continue
         vals = []
-        for v, _ in rs:
+        for v, frx in rs:
             if isinstance(v, Adt) and v.variant == "Some" and isinstance(v.fields[0], tuple) and v.fields[0][0] == "E":
                 vals.append(v.fields[0][1])
+            elif isinstance(v, Adt) and v.variant == "None" and frx.env.get("__zero"):
+                continue      # input tested zero: None is the specified result
             else:
                 vals.append(None)
         ok = len(vals) >= 1 and all(x is not None and x % M == target % M for x in vals)
@@ -152,7 +166,8 @@ def rule_exp(prop, repo):
         hf = Frame(b, [])
         hf.env[0] = dom.E(1)
         rs = ex.run(b, [Ref(hf, 0)])
-        vals = [v.fields[0][1] if isinstance(v, Adt) and v.variant == "Some" and isinstance(v.fields[0], tuple) else None for v, _ in rs]
+        vals = [v.fields[0][1] if isinstance(v, Adt) and v.variant == "Some" and isinstance(v.fields[0], tuple) else None for v, frx in rs
+                if not (isinstance(v, Adt) and v.variant == "None" and frx.env.get("__zero"))]
         want = ((q ** 6 - 1) * (q ** 2 + 1)) % M
         R.check(vals and all(x == want for x in vals), "%s:exp:%s" % (prop, b.rec["path"]), "easy part is not x^((q^6−1)(q^2+1))", b.file_line(), b.rec["path"],
                 sample={"fn": b.rec["path"], "equals_(q^6-1)(q^2+1)": True})
